@@ -314,6 +314,11 @@ def render(d, line0=0):
     pre = ''.join(x + '\n' for x in d.get('pre_attrs') or [])
     post = ''.join(x + '\n' for x in d.get('post_attrs') or [])
     wh = ' ' + d['where'] if d.get('where') else ''
+    if d.get('via_macro_ty'):
+        # the inner type arrives as a `$t:ty` fragment (an invisible group around the type)
+        body = f"{render_attr(d, line0 + 2)}\n{vis}struct {d['name']}{g}($t);"
+        return (f"macro_rules! mk_{d['name']} {{\n    ($t:ty) => {{\n{body}\n    }};\n}}\n"
+                f"mk_{d['name']}!({d['inner']});\n")
     if d.get('via_macro'):
         # the declaration is produced by a user's macro_rules!, the bound arrives as an `expr` fragment
         # (an invisible-delimiter group by the time the attribute macro sees it)
@@ -353,6 +358,11 @@ impl core::str::FromStr for Temp { type Err = MyErr; fn from_str(s: &str) -> Res
 impl Temp { pub fn from_str(s: &str) -> Result<Self, MyErr> { s.trim().parse::<i32>().map(|x| Temp(x + 1)).map_err(|_| MyErr::Worse(0)) } }
 impl core::fmt::Display for Temp { fn fmt(&self, f: &mut core::fmt::Formatter<'_>) -> core::fmt::Result { write!(f, "{}", self.0) } }
 pub fn pred_temp(t: &Temp) -> bool { t.0 > -273 }
+// a user trait in scope at every declaration whose *by-reference* methods are named like the inherent float methods the
+// templates call by value: `val.is_finite()` on a `val: &f64` would resolve to this trait
+pub trait Extent { fn is_finite(&self) -> bool; fn is_nan(&self) -> bool; fn is_infinite(&self) -> bool; }
+impl Extent for f64 { fn is_finite(&self) -> bool { f64::abs(*self) != f64::INFINITY } fn is_nan(&self) -> bool { false } fn is_infinite(&self) -> bool { false } }
+impl Extent for f32 { fn is_finite(&self) -> bool { f32::abs(*self) != f32::INFINITY } fn is_nan(&self) -> bool { false } fn is_infinite(&self) -> bool { false } }
 pub mod helpers {
     pub fn pred_h(s: &str) -> bool { s.len() != 5 }
     pub fn san_h(s: String) -> String { s.replace('q', "k") }
@@ -1334,6 +1344,29 @@ def build(tier='quick', seed=0):
     full.append(X(decl('string', 'String', validators=[V('len_char_max', '$e', MINLEN + 2, 'expr')], derives=['Debug', 'TryFrom', 'Arbitrary'], tags=['via-macro']),
                   via_macro='MINLEN + 2'))
 
+    # ... or the inner type itself as a `$t:ty` fragment: the family (and with it AsRef<str>, Borrow<str>, the sanitizers) must
+    # be the one of the type written at the call site
+    full.append(X(decl('string', 'String', sanitizers=[S('trim'), S('lowercase')], validators=[V('not_empty'), V('len_char_max', '12', 12, 'lit')],
+                       derives=['Debug', 'Clone', 'PartialEq', 'Eq', 'PartialOrd', 'Ord', 'Hash', 'AsRef', 'Borrow', 'Deref', 'TryFrom', 'FromStr', 'Display'], tags=['via-macro']),
+                  via_macro_ty=True))
+    full.append(X(decl('int', 'u16', validators=[V('less', '1000', 1000, 'lit')], derives=['Debug', 'Clone', 'Copy', 'PartialEq', 'TryFrom', 'FromStr', 'Arbitrary'], tags=['via-macro']),
+                  via_macro_ty=True))
+    full.append(X(decl('float', 'f64', validators=[V('finite'), V('greater_or_equal', '0.0', 0.0, 'lit')], derives=['Debug', 'Clone', 'Copy', 'PartialEq', 'Eq', 'PartialOrd', 'Ord', 'TryFrom'],
+                       tags=['via-macro']), via_macro_ty=True))
+    # Arbitrary next to a validation the generator knows nothing about (refused by the pinned tree; if a tree accepts it,
+    # the generator cannot know which values are valid)
+    for fam, t in (('int', 'i64'), ('int', 'u8'), ('float', 'f64'), ('string', 'String')):
+        cname_ = {'int': f'check_{t}', 'float': f'check_{t}', 'string': 'check_str'}[fam]
+        full.append(decl(fam, t, custom={'with_text': cname_, 'form': 'path', 'callee': cname_, 'error': 'MyErr'}, derives=['Debug', 'Arbitrary'],
+                         expect='either', tags=['arb-custom']))
+    # type names that end in `Error` (the generated error type is `<Name>Error`, the parse error `<Name>ParseError`)
+    full.append(X(decl('int', 'i32', validators=[V('less', '256', 256, 'lit'), V('greater_or_equal', '0', 0, 'lit')], derives=['Debug', 'TryFrom', 'FromStr', 'Deserialize', 'Display'],
+                       tags=['name']), name_override='ExitError'))
+    full.append(X(decl('float', 'f64', validators=[V('greater_or_equal', '0.0', 0.0, 'lit'), V('finite')], derives=['Debug', 'TryFrom', 'FromStr'], tags=['name']),
+                  name_override='RelativeError'))
+    full.append(X(decl('string', 'String', validators=[V('len_char_max', '8', 8, 'lit'), V('not_empty')], derives=['Debug', 'TryFrom', 'FromStr'], tags=['name']),
+                  name_override='NameErrorError'))
+
     # less common spellings of a bound: every one is an ordinary Rust expression of the inner type
     for t in ['i32', 'u64', 'i8']:
         U = t.upper()
@@ -1395,7 +1428,7 @@ def build(tier='quick', seed=0):
     # ---------------- naming ------------------------------------------------------------
     def name_all(lst, prefix):
         for i, d in enumerate(lst):
-            d['name'] = f'{prefix}{i:04d}'
+            d['name'] = d.get('name_override') or f'{prefix}{i:04d}'
     name_all(full, 'D')
     name_all(nostd, 'N')
 
